@@ -6,20 +6,29 @@ C02 check, which validates the MODEL against the standard (the implementation pa
 import re, sys, os
 sys.path.insert(0, os.path.join(os.path.dirname(os.path.abspath(__file__))))
 from gen.common import lift_x, pt, pmul, G
-src = open('/repo/src/modules/schnorrsig/tests_impl.h').read()
+from gen.common import P as FIELD_P
+REPO = os.environ.get('VERIF_REPO', '/repo')
+ROOT = os.path.dirname(os.path.dirname(os.path.abspath(__file__)))
+src = open(os.path.join(REPO, 'src/modules/schnorrsig/tests_impl.h')).read()
 body = src[src.index('static void test_schnorrsig_bip_vectors(void)'):]
 body = body[:body.index('\n}\n')]
 blocks = re.split(r'\n    \{\n', body)[1:]
 out = ['// BIP-340 test vectors (from src/modules/schnorrsig/tests_impl.h); `# expect` lines give the published result']
 for b in blocks:
-    arrs = {m.group(1): bytes(int(x, 16) for x in re.findall(r'0x([0-9A-Fa-f]{2})', m.group(2))) for m in re.finditer(r'const unsigned char (\w+)\[\d+\] = \{(.*?)\};', b, re.S)}
+    arrs = {m.group(1): bytes(int(x, 16) for x in re.findall(r'0x([0-9A-Fa-f]{2})', m.group(2))) for m in re.finditer(r'const unsigned char (\w+)\[\d*\] = \{(.*?)\};', b, re.S)}
     name = re.search(r'/\* (Test vector \d+)', b)
     sign = 'check_signing(' in b
     ver = re.search(r'check_verify\(pk, (\w+), [^,]+, sig, (\d)\)', b)
     msg = arrs.get('msg', b'')
+    ms = re.search(r'unsigned char msg\[(\d+)\];\s*memset\(msg, 0x([0-9A-Fa-f]{2}), sizeof\(msg\)\)', b)
+    if ms: msg = bytes([int(ms.group(2), 16)]) * int(ms.group(1))
     if 'check_verify(pk, NULL' in b or ('check_signing' in b and 'aux_rand, NULL' in b): msg = b''
+    if 'CHECK(!secp256k1_xonly_pubkey_parse' in b and 'pk' in arrs:
+        out.append('# expect %s xonly_pubkey_parse -> 0' % (name.group(1) if name else ''))
+        out.append('xonly_parse %s' % arrs['pk'].hex())
+        continue
     pkx = int.from_bytes(arrs['pk'], 'big')
-    P = lift_x(pkx, 0)
+    P = lift_x(pkx, 0) if pkx < FIELD_P else None      # BIP-340: lift_x fails for x >= p
     if sign:
         d = int.from_bytes(arrs['sk'], 'big'); Q = pmul(d, G)
         out.append('# expect %s sign -> 1 %s' % (name.group(1) if name else '', arrs['sig'].hex()))
@@ -30,6 +39,6 @@ for b in blocks:
             out.append('schnorr_verify %s %s %s' % (arrs['sig'].hex(), msg.hex() or '-', pt(P)))
         else:
             out.append('xonly_parse %s' % arrs['pk'].hex())   # public key not on the curve: parsing must fail
-os.makedirs('/verif/corpus/C02', exist_ok=True)
-open('/verif/corpus/C02/bip340_vectors.txt', 'w').write('\n'.join(out) + '\n')
+os.makedirs(os.path.join(ROOT, 'corpus/C02'), exist_ok=True)
+open(os.path.join(ROOT, 'corpus/C02/bip340_vectors.txt'), 'w').write('\n'.join(out) + '\n')
 print(len(out), 'lines')
